@@ -115,6 +115,11 @@ def run_case(prop, case, ctx, findings):
     except Violation:
         raise
     except Exception as e:  # noqa: judged below, never swallowed
+        if "Notify the CasADi developers" in str(e):
+            # an internal assertion of CasADi itself (a CasADi bug, and a loud failure): says nothing about the property
+            ctx.count("harness_inconclusive")
+            ctx.count("inconclusive:CasADi internal assertion")
+            return [], []
         f = sut_exception_fail(e)
         if f is None:
             raise
